@@ -1,6 +1,8 @@
 import CarModel.Cli
 import CarModel.Proofs.IndexGen
 import CarModel.Proofs.V2
+import CarModel.Proofs.IndexWf
+import CarModel.Proofs.Container
 /-
 The `car` sub-commands on valid inputs: what `car index` and `car concat` emit.
 -/
@@ -144,5 +146,84 @@ theorem concat_v1 (maxHeader : Nat) (r1 : Option (List Cid)) (b1 : List Block) (
   rw [hall]
   simp only [show ¬ ((1 : Nat) = 2) by decide, ↓reduceIte, hsec]
   simp [payload, sectionsBytes]
+
+end Car.Cli
+
+namespace Car.Cli
+open Car
+
+theorem mem_withOffsets (b : Block) : ∀ (bs : List Block) (h : Nat), b ∈ bs → ∃ off, (⟨b.cid, off⟩ : Record) ∈ withOffsets h bs := by
+  intro bs
+  induction bs with
+  | nil => intro h hb; cases hb
+  | cons x t ih =>
+    intro h hb
+    simp only [List.mem_cons] at hb
+    rcases hb with rfl | hb
+    · exact ⟨h, by simp [withOffsets]⟩
+    · obtain ⟨off, ho⟩ := ih (h + sectionSize x) hb
+      exact ⟨off, by simp [withOffsets, ho]⟩
+
+/-- **`car verify` accepts what `car index` emits**: for every valid payload whose roots are among its
+    blocks, the layout pragma ++ header ++ payload ++ index-of-its-sections passes every rule of
+    `VerifyCar` — header consistency, full hash-verifying scan, roots present, and an index lookup
+    for every non-identity block. -/
+theorem verify_accepts_indexed (H : HashFn) (o : ReadOpts) (codec : Nat) (roots : List Cid) (bs : List Block) (ix : Index)
+    (hne : roots.isEmpty = false) (hin : (roots.all fun r => bs.any fun b => b.cid == r) = true)
+    (ok : PayloadOK H o (some roots) bs) (h10 : 10 ≤ o.maxHeader)
+    (lok : LayoutOK 0 0 (payload (some roots) bs).length)
+    (hix : Index.load codec (withOffsets (headerSize ⟨some roots, 1⟩) bs) = some ix)
+    (hrec : RecordsOK (withOffsets (headerSize ⟨some roots, 1⟩) bs)) :
+    verifyCar H o (layoutV2 0 0 (payload (some roots) bs) true false ix.bytes) = .ok () := by
+  have hp := payload_length_pos (some roots) bs
+  have hfw := finalHeader_wf 0 0 (payload (some roots) bs).length true false hp lok
+  have hscan := scanBlockReader_v2 H o true 0 0 (some roots) bs true false ix.bytes ok h10 lok
+  have e : layoutV2 0 0 (payload (some roots) bs) true false ix.bytes
+      = pragma ++ ((finalHeader 0 0 (payload (some roots) bs).length true false).bytes ++ (payload (some roots) bs ++ ix.bytes)) := by
+    simp [layoutV2, zeros]
+  have hlen : (layoutV2 0 0 (payload (some roots) bs) true false ix.bytes).length
+      = 51 + (payload (some roots) bs).length + ix.bytes.length := by
+    rw [e]; simp [pragma, pragmaBody, keyVersion, V2Header.bytes_length]; omega
+  have hdrop : (layoutV2 0 0 (payload (some roots) bs) true false ix.bytes).drop (51 + (payload (some roots) bs).length) = ix.bytes := by
+    have hpre : (pragma ++ ((finalHeader 0 0 (payload (some roots) bs).length true false).bytes ++ payload (some roots) bs)).length
+        = 51 + (payload (some roots) bs).length := by
+      simp [pragma, pragmaBody, keyVersion, V2Header.bytes_length]; omega
+    have e2 : layoutV2 0 0 (payload (some roots) bs) true false ix.bytes
+        = (pragma ++ ((finalHeader 0 0 (payload (some roots) bs).length true false).bytes ++ payload (some roots) bs)) ++ ix.bytes := by
+      rw [e]; simp
+    rw [e2, List.drop_left' hpre]
+  unfold verifyCar
+  rw [hscan]
+  rw [e, readHeader_pragma o.maxHeader _ h10]
+  simp only [show ¬ ((2 : Nat) = 1) by decide, ↓reduceIte]
+  rw [readV2Header_bytes _ hfw]
+  simp only [Option.getD_some, hne, Bool.false_eq_true, ↓reduceIte]
+  rw [← e]
+  have hds : (finalHeader 0 0 (payload (some roots) bs).length true false).dataSize = (payload (some roots) bs).length := by
+    simp [finalHeader]
+  have hdo : (finalHeader 0 0 (payload (some roots) bs).length true false).dataOffset = 51 := by simp [finalHeader]
+  have hio : (finalHeader 0 0 (payload (some roots) bs).length true false).indexOffset = 51 + (payload (some roots) bs).length := by
+    simp [finalHeader]
+  simp only [hds, hdo, hio]
+  have c1 : ¬ ((payload (some roots) bs).length = 0) := by omega
+  have c2 : ¬ (51 + (payload (some roots) bs).length = 0) := by omega
+  simp only [c1, c2, decide_false, Bool.false_or, Bool.and_false, Nat.lt_irrefl, bne_iff_ne, ne_eq, not_false_eq_true,
+    decide_true, Bool.true_and, Bool.or_false, Bool.false_eq_true, ↓reduceIte, hin, Bool.not_true]
+  rw [hdrop]
+  have hrt := index_roundtrip ix (index_load_wf codec _ ix hix hrec) []
+  simp only [List.append_nil] at hrt
+  rw [hrt]
+  simp only
+  have hall : (bs.all fun b => b.cid.isIdentity || !(ix.getAll b.cid).isEmpty) = true := by
+    rw [List.all_eq_true]
+    intro b hb
+    obtain ⟨off, hoff⟩ := mem_withOffsets b bs (headerSize ⟨some roots, 1⟩) hb
+    have := (index_getAll_load codec _ ix hix hrec.off b.cid off).mpr ⟨⟨b.cid, off⟩, hoff, fun _ => rfl, rfl, rfl⟩
+    have hnn : (ix.getAll b.cid).isEmpty = false := by
+      cases hg : ix.getAll b.cid with
+      | nil => rw [hg] at this; cases this
+      | cons _ _ => rfl
+    simp [hnn]
+  simp [hall]
 
 end Car.Cli
